@@ -230,6 +230,11 @@ func (c *DefaultCrawler) Run(ctx context.Context, startingPeers []*peer.AddrInfo
 		}
 		peerAddrs.addPeerAddrsNoLock(ai.ID, extendAddrs)
 
+		// A starting peer may be listed more than once (e.g. as a previously
+		// found peer and as a bootstrap peer): query it once.
+		if _, ok := peersSeen[ai.ID]; ok {
+			continue
+		}
 		toDial = append(toDial, ai)
 		peersSeen[ai.ID] = struct{}{}
 	}
